@@ -4,6 +4,7 @@
 -/
 import Gozod.Model.Issues
 import Gozod.Model.IssuesSpec
+import Std.Data.String.ToNat
 namespace Gozod.C19
 open Gozod.Issues
 
@@ -603,6 +604,219 @@ theorem legacy_dotpath_conflates :
 
 example : prettify [.mk .tooBig [.key "users", .idx 0, .key "first-name"] "m1" [] [], .mk .custom [] "m2" [] []]
     = "users[0][\"first-name\"]: m1; m2" := by decide
+
+/-! ### ToDotPath identifies the path — on paths of plain segments -/
+
+/-- a key that ToDotPath writes verbatim: a non-empty identifier that does not start with a digit -/
+def plainKey (s : String) : Bool := !s.toList.isEmpty && !needsBracket s
+
+def plainSeg : Seg → Bool
+  | .key s => plainKey s
+  | .idx _ => true
+
+/-- the excluded region of the injectivity theorem is its complement: some key is empty, starts
+    with a digit, or has a character outside [A-Za-z0-9_] (it is then copied between `["` and `"]`
+    without escaping) -/
+def plainPath (p : List Seg) : Bool := p.all plainSeg
+
+/-- "empty, or starts with a segment delimiter" -/
+def delimited : List Char → Prop
+  | [] => True
+  | c :: _ => c = '.' ∨ c = '['
+
+theorem ident_ne_delim {c : Char} (h : isIdentChar c = true) : c ≠ '.' ∧ c ≠ '[' := by
+  constructor <;> (intro e; subst e; revert h; decide)
+
+theorem digit_ne_close {c : Char} (h : c.isDigit = true) : c ≠ ']' := by
+  intro e; subst e; revert h; decide
+
+/-- an identifier followed by a delimiter (or the end) can be read back in one way only -/
+theorem ident_split : ∀ (a b u v : List Char), (∀ c ∈ a, isIdentChar c = true) → (∀ c ∈ b, isIdentChar c = true) →
+    delimited u → delimited v → a ++ u = b ++ v → a = b ∧ u = v
+  | [], [], u, v, _, _, _, _, h => ⟨rfl, by simpa using h⟩
+  | [], c :: b, u, v, _, hb, hu, _, h => by
+    have hc := ident_ne_delim (hb c (by simp))
+    cases u with
+    | nil => simp at h
+    | cons d u' =>
+      simp at h
+      obtain ⟨e, _⟩ := h
+      subst e
+      cases hu with
+      | inl x => exact absurd x hc.1
+      | inr x => exact absurd x hc.2
+  | c :: a, [], u, v, ha, _, _, hv, h => by
+    have hc := ident_ne_delim (ha c (by simp))
+    cases v with
+    | nil => simp at h
+    | cons d v' =>
+      simp at h
+      obtain ⟨e, _⟩ := h
+      subst e
+      cases hv with
+      | inl x => exact absurd x hc.1
+      | inr x => exact absurd x hc.2
+  | c :: a, d :: b, u, v, ha, hb, hu, hv, h => by
+    simp at h
+    obtain ⟨e, h'⟩ := h
+    subst e
+    have := ident_split a b u v (fun x hx => ha x (by simp [hx])) (fun x hx => hb x (by simp [hx])) hu hv h'
+    exact ⟨by rw [this.1], this.2⟩
+
+/-- digits followed by `]` can be read back in one way only -/
+theorem digits_split : ∀ (a b u v : List Char), (∀ c ∈ a, c.isDigit = true) → (∀ c ∈ b, c.isDigit = true) →
+    a ++ ']' :: u = b ++ ']' :: v → a = b ∧ u = v
+  | [], [], u, v, _, _, h => ⟨rfl, by simpa using h⟩
+  | [], c :: b, u, v, _, hb, h => by
+    simp at h
+    exact absurd h.1.symm (digit_ne_close (hb c (by simp)))
+  | c :: a, [], u, v, ha, _, h => by
+    simp at h
+    exact absurd h.1 (digit_ne_close (ha c (by simp)))
+  | c :: a, d :: b, u, v, ha, hb, h => by
+    simp at h
+    obtain ⟨e, h'⟩ := h
+    subst e
+    have := digits_split a b u v (fun x hx => ha x (by simp [hx])) (fun x hx => hb x (by simp [hx])) h'
+    exact ⟨by rw [this.1], this.2⟩
+
+theorem repr_digits (n : Nat) : ∀ c ∈ (toString n).toList, c.isDigit = true := by
+  intro c hc
+  rw [Nat.toString_eq_repr, Nat.toList_repr] at hc
+  exact Nat.isDigit_of_mem_toDigits (by decide) (by decide) hc
+
+theorem repr_toList_inj {n m : Nat} (h : (toString n).toList = (toString m).toList) : n = m := by
+  have := String.toList_injective h
+  simp only [Nat.toString_eq_repr] at this
+  exact Nat.repr_injective this
+
+/-- what a plain key looks like -/
+theorem plainKey_chars {s : String} (h : plainKey s = true) :
+    s.toList ≠ [] ∧ (∀ c ∈ s.toList, isIdentChar c = true) ∧ needsBracket s = false := by
+  unfold plainKey at h
+  simp only [Bool.and_eq_true, Bool.not_eq_true'] at h
+  obtain ⟨h1, h2⟩ := h
+  refine ⟨by intro e; simp [e] at h1, ?_, h2⟩
+  unfold needsBracket at h2
+  cases hs : s.toList with
+  | nil => simp
+  | cons c cs =>
+    rw [hs] at h2
+    simp only [needsBracketChars, Bool.or_eq_false_iff] at h2
+    intro x hx
+    have := h2.2
+    simp only [List.any_eq_false] at this
+    have := this x hx
+    simpa using this
+
+theorem segDot_delimited (s : Seg) (hs : plainSeg s = true) (u : List Char) : delimited (segDot false s ++ u) := by
+  cases s with
+  | idx n => simp [segDot, delimited]
+  | key k =>
+    have := (plainKey_chars hs).2.2
+    simp [segDot, this, delimited]
+
+theorem dotRest_delimited (p : List Seg) (hp : plainPath p = true) : delimited (dotRest p) := by
+  cases p with
+  | nil => simp [dotRest, delimited]
+  | cons s r =>
+    simp only [plainPath, List.all_cons, Bool.and_eq_true] at hp
+    exact segDot_delimited s hp.1 _
+
+/-- one segment can be read back in one way only -/
+theorem segDot_split (first : Bool) (s t : Seg) (hs : plainSeg s = true) (ht : plainSeg t = true)
+    (u v : List Char) (hu : delimited u) (hv : delimited v)
+    (h : segDot first s ++ u = segDot first t ++ v) : s = t ∧ u = v := by
+  cases s with
+  | idx n =>
+    cases t with
+    | idx m =>
+      simp only [segDot, List.cons_append, List.append_assoc, List.cons.injEq, true_and] at h
+      have := digits_split _ _ _ _ (repr_digits n) (repr_digits m) (by simpa using h)
+      exact ⟨by rw [repr_toList_inj this.1], this.2⟩
+    | key k =>
+      obtain ⟨hne, hid, hnb⟩ := plainKey_chars ht
+      cases first
+      · simp [segDot, hnb] at h
+      · simp only [segDot, hnb] at h
+        cases hk : k.toList with
+        | nil => exact absurd hk hne
+        | cons c cs =>
+          rw [hk] at h
+          simp at h
+          have := (ident_ne_delim (hid c (by simp [hk]))).2
+          exact absurd h.1.symm this
+  | key k =>
+    obtain ⟨hne, hid, hnb⟩ := plainKey_chars hs
+    cases t with
+    | idx m =>
+      cases first
+      · simp [segDot, hnb] at h
+      · simp only [segDot, hnb] at h
+        cases hk : k.toList with
+        | nil => exact absurd hk hne
+        | cons c cs =>
+          rw [hk] at h
+          simp at h
+          have := (ident_ne_delim (hid c (by simp [hk]))).2
+          exact absurd h.1 this
+    | key k' =>
+      obtain ⟨hne', hid', hnb'⟩ := plainKey_chars ht
+      have key : k.toList ++ u = k'.toList ++ v := by
+        cases first <;> simpa [segDot, hnb, hnb'] using h
+      have := ident_split _ _ _ _ hid hid' hu hv key
+      exact ⟨by rw [String.toList_injective this.1], this.2⟩
+
+theorem dotRest_injective : ∀ (p q : List Seg), plainPath p = true → plainPath q = true →
+    dotRest p = dotRest q → p = q
+  | [], [], _, _, _ => rfl
+  | [], t :: q, _, hq, h => by
+    simp only [plainPath, List.all_cons, Bool.and_eq_true] at hq
+    cases t with
+    | idx m => simp [dotRest, segDot] at h
+    | key k => have := (plainKey_chars hq.1).2.2; simp [dotRest, segDot, this] at h
+  | s :: p, [], hp, _, h => by
+    simp only [plainPath, List.all_cons, Bool.and_eq_true] at hp
+    cases s with
+    | idx m => simp [dotRest, segDot] at h
+    | key k => have := (plainKey_chars hp.1).2.2; simp [dotRest, segDot, this] at h
+  | s :: p, t :: q, hp, hq, h => by
+    simp only [plainPath, List.all_cons, Bool.and_eq_true] at hp hq
+    have := segDot_split false s t hp.1 hq.1 _ _ (dotRest_delimited p hp.2) (dotRest_delimited q hq.2) h
+    rw [this.1, dotRest_injective p q hp.2 hq.2 this.2]
+
+theorem segDot_first_ne_nil (s : Seg) (hs : plainSeg s = true) (u : List Char) : segDot true s ++ u ≠ [] := by
+  cases s with
+  | idx n => simp [segDot]
+  | key k =>
+    obtain ⟨hne, _, hnb⟩ := plainKey_chars hs
+    simp [segDot, hnb, hne]
+
+/-- the full statement is `c19_dotpath_injective_full` (false, see the witness); this is the
+    region where it holds: **on plain paths the dot notation identifies the path**, so
+    PrettifyError's "path: message" segments name the position unambiguously there. -/
+theorem c19_dotpath_injective_partial (p q : List Seg) (hp : plainPath p = true) (hq : plainPath q = true)
+    (h : dotPath p = dotPath q) : p = q := by
+  have h := String.ofList_injective h
+  cases p with
+  | nil =>
+    cases q with
+    | nil => rfl
+    | cons t q =>
+      simp only [plainPath, List.all_cons, Bool.and_eq_true] at hq
+      exact absurd h.symm (segDot_first_ne_nil t hq.1 _)
+  | cons s p =>
+    cases q with
+    | nil =>
+      simp only [plainPath, List.all_cons, Bool.and_eq_true] at hp
+      exact absurd h (segDot_first_ne_nil s hp.1 _)
+    | cons t q =>
+      simp only [plainPath, List.all_cons, Bool.and_eq_true] at hp hq
+      have := segDot_split true s t hp.1 hq.1 _ _ (dotRest_delimited p hp.2) (dotRest_delimited q hq.2) h
+      rw [this.1, dotRest_injective p q hp.2 hq.2 this.2]
+
+example : plainPath [.key "users", .idx 12, .key "first_name"] = true := by decide
+example : plainPath [.key "a.b"] = false := by decide
 
 /-! ## A non-empty error never formats to an empty report -/
 
